@@ -69,9 +69,10 @@ func (rn *Runner) ObserveIndex(ev tl.M) {
 	ev["ix"] = tl.M{"on": exists, "inited": inited, "last": l, "set": set}
 }
 
-// IndexRunEvent waits for the initial indexing to finish and records it as one step.
-func (rn *Runner) IndexRunEvent() {
-	if !rn.WaitIndexed() {
+// IndexRunEvent records the progress of the background indexer as one step. With wait it
+// first waits for the initial indexing to finish.
+func (rn *Runner) IndexRunEvent(wait bool) {
+	if wait && !rn.WaitIndexed() {
 		return
 	}
 	ev := tl.M{"op": "IndexRun"}
